@@ -1,5 +1,5 @@
 """Property registry: id -> configuration (which machinery decides it)."""
-from . import runtime_check, props_h1
+from . import runtime_check, props_h1, mid_check
 from .h1 import P
 from .props_h1 import *
 
@@ -24,6 +24,7 @@ PROPS = {
                   oracles=[orc_c06_bound], twins=twins_c06, twin_rel=rel_c06,
                   variants=[v for v in core.ALL_VARIANTS if v.startswith("o0")], level="other",
                   explanation="Debug/Statistics/Memoize twins of every case are run on the real generated parser and compared; Lean theorems cover the memo-table discipline only (the full memo-soundness statement is false for the unchanged code, finding D7)"),
+    "C07": dict(module="PigeonVerif.Properties.C07", run=mid_check.run_c07, level="other"),
     "C10": h1prop("PigeonVerif.Properties.C10", P(["val", "errs"]),
                   [("mixed", 6000, 200000), ("state", 2000, 50000), ("lr", 1500, 40000)],
                   twins=twins_c10, twin_rel=rel_c10),
@@ -37,4 +38,5 @@ PROPS = {
                   [("budget", 6000, 200000), ("memo", 1000, 30000)], oracles=[orc_c16], phase2=phase2_c16),
     "C17": h1prop("PigeonVerif.Properties.C17", P(["val", "errs", "pos", "trace_ctx"]),
                   [("utf8", 6000, 200000)], oracles=[orc_c17]),
+    "C19": dict(module="PigeonVerif.Properties.C19", run=mid_check.run_c19, level="proof"),
 }
